@@ -179,6 +179,8 @@ def main(argv=None):
     vac = None
     if res.evaluations == 0:
         vac = "no case was explored"
+    elif not res.samples:
+        vac = "no sample case was written out"
     elif len(res.nontrivial) < 2:
         vac = "fewer than two distinct non-trivial cases"
     elif getattr(mod, "MIN_OUTCOMES", 2) > len(res.outcomes):
